@@ -5,7 +5,7 @@ import conv
 
 COQ_IMPORTS = ['Model.NFA', 'Model.PDA', 'Judge.C09_judge']
 RULE = ('random PDAs (1-4 states, input {a,b}, stack {x,y}, epsilon in {_, ε, \'\'}) with push / pop / no-op / replace moves, epsilon moves and epsilon cycles that do or do not grow the stack, '
-        'and hand-written families (a^n b^n, pushing epsilon loops); pda_epsilon_closure_max_iterations in {1,2,5,50,1000} (in {1,2,5,20,40} when the PDA has a pushing epsilon move, to bound the evaluation cost of unbounded closures); all words <= 2 (3 for one symbol) plus random words <= 5; under 2 (quick) / 8 (thorough) PYTHONHASHSEED values. '
+        'and hand-written families (a^n b^n, pushing epsilon loops); pda_epsilon_closure_max_iterations in {1,2,5,50,1000} and, on a chain of 1100 epsilon moves, limits above the default (1200) (in {1,2,5,20,40} when the PDA has a pushing epsilon move, to bound the evaluation cost of unbounded closures); all words <= 2 (3 for one symbol) plus random words <= 5; under 2 (quick) / 8 (thorough) PYTHONHASHSEED values. '
         'Observed: pda_accepts_word, pda_epsilon_closure of sampled configuration sets, pda_do_transition, pda_can_pop_push, pda_pop_push. Relation: below the limit (model closure not truncated) exact equality; '
         'when truncated, only soundness (every member epsilon-reachable / a True verdict has an accepting computation, decided with a 2x larger budget). '
         'Non-trivial = at least one accepted and one rejected word and at least one epsilon move; distinct by (PDA text, limit).')
@@ -43,6 +43,13 @@ def gen(rng, tier):
         ps.append(G.random_pda(rng, rng.randint(1, 4), rng.choice(['a', 'ab', 'ab', '']), rng.choice(['x', 'xy']), rng.choice(['_', 'ε', '']),
                                ntrans=rng.randint(1, 8), kinds=rng.choice([None, ['push', 'pop'], ['push', 'noop', 'pop', 'push'], ['replace', 'push', 'pop']])))
     cases = []
+    # a limit ABOVE the default: a chain of 1100 epsilon moves has a closure of 1101 configurations; with the limit set to
+    # 1200 the accepting end of the chain must be found, with 1050 the closure is truncated
+    for lim in ([1200] if quick else [1200, 1050, 1101]):
+        n = 1100
+        chain = {'Q': ['c%d' % i for i in range(n + 1)], 'Sigma': ['a'], 'Gamma': ['x'], 'eps': '_', 'q0': 'c0', 'F': ['c%d' % n],
+                 'delta': [['c%d' % i, '_', '_', 'c%d' % (i + 1), '_'] for i in range(n)]}
+        cases.append({'P': chain, 'limit': lim, 'ws': [''], 'sets': []})
     for i, p in enumerate(ps):
         eps_push = any(t[1] == p['eps'] and t[4] != p['eps'] for t in p['delta'])
         limit = ([1, 2, 5, 20, 40] if eps_push else LIMITS)[i % 5] if i >= 6 else [30, 5][i % 2]
@@ -73,7 +80,7 @@ def observe(c):
                 t = safe(PA.pda_do_transition, P, a, R)
                 steps.append([a, s, sorted([x.q, list(x.stack)] for x in t[1]) if ok(t) else None])
         pp = []
-        for q, st in c['sets'][-1]:
+        for q, st in (c['sets'][-1] if c['sets'] else []):
             for u in (c['P']['Gamma'] + [c['P']['eps']])[:3]:
                 v = c['P']['Gamma'][0] if c['P']['Gamma'] else c['P']['eps']
                 can = safe(PA.pda_can_pop_push, P, list(st), u, v)
@@ -141,6 +148,8 @@ def distribution(cases, obs):
 def shrink(c):
     out = []
     p = c['P']
+    if len(p['delta']) > 60:
+        return []
     for i in range(len(p['delta'])):
         out.append(dict(c, P=dict(p, delta=p['delta'][:i] + p['delta'][i + 1:])))
     if len(c['ws']) > 1:
